@@ -262,7 +262,7 @@ for n in ["api_ref_new_stream_exists", "api_ref_storage_on_stream", "api_ref_str
           "api_ref_parent_is_stream", "api_ref_remove_storage_on_stream", "api_ref_remove_stream_on_storage", "api_ref_remove_root",
           "api_ref_remove_missing", "api_ref_open_storage", "api_ref_escape_root", "api_ref_clsid_on_stream", "api_ref_state_missing"]:
     harness(n, props=["C10", "C01"], tier=("quick" if n in ("api_ref_new_stream_exists", "api_ref_parent_is_stream", "api_ref_remove_stream_on_storage") else "thorough"),
-            timeout=3000, mem=6, stubs=[FMT, STUB_UP, "OsStr :: to_str"],
+            timeout=3000, mem=14, stubs=[FMT, STUB_UP, "OsStr :: to_str"],
             what="a call the abstract model refuses (%s) returns exactly the model's error kind and leaves image and caches bit-identical" % n[8:],
             bounds="concrete path on a 3-entry file with symbolic contents/metadata", functions=API_F, assumes=[A_SHAPE, A_UPTABLE])
 harness("api_setters", props=["C17", "C02", "C07", "C01"], timeout=3000, mem=6, stubs=[FMT, STUB_UP, "OsStr :: to_str"],
